@@ -342,41 +342,12 @@ def _args_match(ctx, R, T):
 
 
 def _nd_park(ctx, R):
-    """ND-park: every path through _AdbPacketStore.put enqueues the packet."""
-    f = ctx.pkg.func("hidden_helpers._AdbPacketStore.put")
-    g = ctx.cfg(f)
-    df = ctx.df(f)
-    enq = [n for n in g.live_nodes() if any(call_attr(c) in ("put_nowait", "put", "append", "appendleft") for c in node_calls(n))]
-    if not enq:
-        R.fail("ND-park", f.qualname + "|no-enqueue", "put() never enqueues", f.loc())
-        return
-    # the enqueued item is (cmd, data) under [arg1][arg0]
-    for n in enq:
-        for c in node_calls(n):
-            if call_attr(c) in ("put_nowait", "put", "append"):
-                item = c.args[0] if c.args else None
-                ok = isinstance(item, ast.Tuple) and [varkey(e) for e in item.elts] == ["cmd", "data"]
-                R.check(ok, "ND-park", f.qualname + "|item", "the parked item is (cmd, data)", "the parked item is `%s`, not (cmd, data)" % (src(item) if item is not None else "?"), f.loc(n.ast))
-                recv = c.func.value
-                ok2 = isinstance(recv, ast.Subscript) and isinstance(recv.value, ast.Subscript) and varkey(recv.slice) == "arg0" and varkey(recv.value.slice) == "arg1" \
-                    and varkey(recv.value.value) == f.params[0] + "._dict"
-                R.check(ok2, "ND-park", f.qualname + "|queue", "parked in the queue of its own (arg1, arg0) pair", "parked in `%s`, not in the queue of its own pair" % src(recv), f.loc(n.ast))
-    # every normal path from entry to exit passes an enqueue; offending early exits are reported one by one
-    early = []
-    for n in g.live_nodes():
-        if n.kind == "stmt" and isinstance(n.ast, ast.Return):
-            r = g.reach([g.entry], avoid=enq, exc=False, include_start=True)
-            if n in r:
-                early.append(n)
-    r = g.reach([g.entry], avoid=enq + early, exc=False, include_start=True)
-    if g.exit in r:
-        R.fail("ND-park", f.qualname + "|falls-through", "put() can fall off its end without enqueuing", f.loc())
-    for n in early:
-        facts = sorted("%s%s" % ("" if fa[1] else "not ", _fact_str(fa)) for fa in df.facts(n))
-        R.fail("ND-park", "%s|return-before-enqueue|%s" % (f.qualname, " & ".join(facts)),
-               "put() returns without enqueuing when %s: a packet read off the wire for another stream is dropped" % " and ".join(facts), f.loc(n.ast))
-    if not early and g.exit not in r:
-        R.ok("ND-park", f.qualname, "every path through put() enqueues the packet", f.loc())
+    """No packet is dropped when it is parked: put() appends (cmd, data) once to the queue of its own pair for every shape of
+    the store (abstract interpretation, sa/absstore.py + sa/storespec.py); a CLSE dropped for a pair without queue is reported
+    under a key that names the shape (known finding K1)."""
+    from .. import storespec
+    cls = ctx.pkg.cls("hidden_helpers._AdbPacketStore")
+    R.attempt(storespec.put_spec, ctx, R, cls, "ND-park", clse_drop="finding")
 
 
 def _fact_str(fa):
